@@ -542,6 +542,16 @@ def check_C10(ctx):
         dict(name="cmp-pushonly-obj", alphabet="OpsObj", clients="Seq2", editors=E2, feat='{"idle", "compact", "force", "pushonly"}',
              maxcompact=2, weight=4, maxedits=4, maxsyncs=8, **OBJ),
     ]
+    if quick:   # validated on quick explorations 1-4; the thorough tier keeps its validated family set (C20 thorough runs the same families)
+        fams += [
+        # a fresh attacher served by a SNAPSHOT of the new generation (threshold 2): the server's cached document of the
+        # old generation must not leak into it (seed C10-c; same parameters as C20's cache-compact families)
+        dict(name="cmp-snapgen", alphabet="OpsCnt", clients="Seq3", threshold=2, interval=2, late='{"c3"}',
+             feat='{"idle", "build", "compact", "force", "lateattach", "detach", "reattach"}', maxsess=3, maxcompact=2, weight=2, maxedits=5, maxsyncs=10,
+             kinds=["n"], init=[]),
+        dict(name="cmp-snapgen-obj", alphabet="OpsObj", clients="Seq3", threshold=2, interval=2, late='{"c3"}',
+             feat='{"idle", "build", "compact", "force", "lateattach", "detach", "reattach"}', maxsess=3, maxcompact=2, weight=4, maxedits=5, maxsyncs=10, **OBJ),
+        ]
     viols = sim_families(ctx, fams, C10_TAGS, n)
     if ctx.counters.get("compactions_ok", 0) == 0:
         raise Infra("vacuous: no compaction succeeded")
